@@ -1145,8 +1145,15 @@ impl Prop for Prims {
                     } else {
                         (n1, n2)
                     };
+                    let (n1, n2) = if cx.tier != Tier::Miri && cx.rng.chance(1, 400) {
+                        // one side longer than 2^17 elements, the other short and with repeats (and the other way round)
+                        cx.count("pairs with one side longer than 131 072 elements");
+                        if cx.rng.chance(1, 2) { (cx.rng.range(131_073, 140_000), cx.rng.range(3, 40)) } else { (cx.rng.range(3, 40), cx.rng.range(131_073, 140_000)) }
+                    } else {
+                        (n1, n2)
+                    };
                     let s1: Vec<char> = (0..n1).map(|_| alpha[cx.rng.below(k)]).collect();
-                    let s2: Vec<char> = if cx.rng.chance(1, 5) { let mut x = s1.clone(); cx.rng.shuffle(&mut x); x } else { (0..n2).map(|_| alpha[cx.rng.below(k)]).collect() };
+                    let s2: Vec<char> = if cx.rng.chance(1, 5) && n1 < 100_000 { let mut x = s1.clone(); cx.rng.shuffle(&mut x); x } else { (0..n2).map(|_| alpha[cx.rng.below(k)]).collect() };
                     private::check_jaccard(cx, &s1, &s2);
                 }
             }
